@@ -35,6 +35,7 @@ ASSUMES = ["a kill leaves exactly a prefix of the issued FS mutations, the last 
 OUTSIDE = ["power loss without fsync", "non-POSIX rename", "large payloads (multi-chunk pickles beyond those recorded)"]
 
 SRC_V1 = "def f(a, b=2):\n    return ('v1', a, b)\n"
+SRC_BIG = "def f(a, b=2):\n    return ('v1', a, b, list(range(3000)), 'x' * 70000)\n"
 SRC_V2 = "def f(a, b=2):\n    x = 1\n    return ('v2', a, b)\n"
 WORKLOADS = ["cold", "warm", "source_change", "invalidate", "shelve", "compressed", "reduce_size", "clear"]
 RECOVERIES = ["plain", "expires", "shelve_get"]
@@ -82,6 +83,10 @@ def _prestate_and_work(name):
         mem, f = _session(fs, clock)
         mem.cache(f, cache_validation_callback=_never_valid)(1)
 
+    def cold_big(fs, clock):
+        mem, f = _session(fs, clock, SRC_BIG)
+        mem.cache(f)(1)
+
     def shelve(fs, clock):
         mem, f = _session(fs, clock)
         mem.cache(f).call_and_shelve(1).get()
@@ -98,7 +103,8 @@ def _prestate_and_work(name):
         mem, f = _session(fs, clock)
         mem.clear(warn=False)
 
-    table = {"cold": (none, cold, SRC_V1, {}), "warm": (one_entry, cold, SRC_V1, {}),
+    table = {"cold_big": (none, cold_big, SRC_BIG, {}), "cold_big_z": (none, lambda fs, clock: _session(fs, clock, SRC_BIG, compress=True)[0].cache(_session(fs, clock, SRC_BIG, compress=True)[1])(1), SRC_BIG, {"compress": True}),
+             "cold": (none, cold, SRC_V1, {}), "warm": (one_entry, cold, SRC_V1, {}),
              "source_change": (one_entry, source_change, SRC_V2, {}), "invalidate": (one_entry, invalidate, SRC_V1, {}),
              "shelve": (none, shelve, SRC_V1, {}), "compressed": (none, compressed, SRC_V1, {"compress": True}),
              "reduce_size": (three_entries, reduce_size, SRC_V1, {}), "clear": (three_entries, clear, SRC_V1, {})}
@@ -134,8 +140,15 @@ def _crash_state(p, k):
     return fs
 
 
+_EXP = {}
+
+
 def _expected(src, a):
-    return ("v1" if src == SRC_V1 else "v2", a, 2)
+    if src not in _EXP:
+        ns = {}
+        exec(src, ns)
+        _EXP[src] = ns["f"]
+    return _EXP[src](a)
 
 
 def _recover(fs, recovery, args=(1, 2, 3)):
@@ -170,7 +183,7 @@ def _recover(fs, recovery, args=(1, 2, 3)):
 def ob_crash(p: int, k: int) -> bool:
     """
     pre: 0 <= p <= 400
-    pre: 0 <= k <= 4000
+    pre: 0 <= k <= 200000
     post: _
     """
     H.enter()
@@ -181,7 +194,10 @@ def ob_crash(p: int, k: int) -> bool:
     if pp > 0 and tr[pp - 1][0] == "write":
         n = len(tr[pp - 1][2])
         H.assume(k <= n)
-        kk = H.select(k, 0, n)
+        if n > 300:
+            # long writes: every length below 64, every 997th, and the last 64
+            H.assume(k < 64 or k > n - 64 or k % 997 == 0)
+        kk = H.select_bisect(k, 0, n)
     else:
         H.assume(k == 0)
     recovery = H.P("recovery")
@@ -216,7 +232,7 @@ def ob_final_names(p: int) -> bool:
                 if base == "output.pkl":
                     try:
                         v = joblib.load(path)
-                        if not (isinstance(v, tuple) and len(v) == 3 and v[0] in ("v1", "v2")):
+                        if not (isinstance(v, tuple) and len(v) in (3, 5) and v[0] in ("v1", "v2")):
                             bad.append("%s holds %r" % (path, v))
                     except Exception as e:
                         bad.append("%s visible but incomplete (%s)" % (path, type(e).__name__))
@@ -279,6 +295,13 @@ def obligations(tier, seed):
                             "bounds": "as crash/%s, directory listings in reverse order" % wl})
         obs.append({"name": "final_names/%s" % wl, "fn": "ob_final_names", "mode": "S", "params": {"workload": wl},
                     "timeout": 200, "bounds": "every prefix of the workload's mutation trace"})
+    if tier == "thorough":
+        for wl in ("cold_big", "cold_big_z"):
+            for rec in ("plain", "shelve_get"):
+                obs.append({"name": "crash/%s/%s" % (wl, rec), "fn": "ob_crash", "mode": "S",
+                            "params": {"workload": wl, "recovery": rec}, "timeout": 1800,
+                            "bounds": "70 KB result (multi-chunk pickle writes): every prefix of the trace; torn lengths < 64, "
+                                      "> len-64 and every 997th in between"})
     for rec in ("plain", "expires"):
         obs.append({"name": "torn_code/%s" % rec, "fn": "ob_torn_code", "mode": "T",
                     "params": {"workload": "cold", "recovery": rec}, "timeout": 600,
